@@ -745,6 +745,8 @@ func runAvc(c *runner.Ctx) {
 		spsByID[s.ID] = s
 	}
 	nSlices := 8
+	var prior []string
+	var parsed []*witness
 	for k := 0; k < nSlices; k++ {
 		p := ppsRecs[r.Intn(len(ppsRecs))]
 		if !ppsUsable[p.ID] {
@@ -772,12 +774,21 @@ func runAvc(c *runner.Ctx) {
 			c.Seen("avc.slice.branch", "pps_id==sps_id")
 		}
 		w := &witness{Codec: "avc", Kind: "slice", NAL: hx(cd.NAL), SPS: spsHex, PPS: ppsHex, Want: cd.Elems, Size: cd.HeaderSize,
-			Hazards: avcSliceHazards(s, p), Branches: cd.Branches}
+			Hazards: avcSliceHazards(s, p), Branches: cd.Branches, Prior: append([]string{}, prior...)}
 		checkAvcSlice(c, w, spsMap, ppsMap)
+		prior = append(prior, w.NAL)
+		parsed = append(parsed, w)
 		if c.WantSample() && k == 0 {
 			c.Sample(map[string]interface{}{"codec": "avc", "kind": "slice", "nal": hx(cd.NAL), "header_bits": cd.HeaderBits, "header_size": cd.HeaderSize,
 				"pps_id": p.ID, "sps_id": p.SPSID, "branches": cd.Branches})
 		}
+	}
+	// second pass: every slice once more against the maps all the others have been parsed with
+	for _, w := range parsed {
+		w2 := *w
+		w2.Prior = append([]string{}, prior...)
+		c.Count("avc.slice.second_pass", 1)
+		checkAvcSlice(c, &w2, spsMap, ppsMap)
 	}
 	c.Nontrivial(runner.Hash64(hashParts...))
 }
@@ -795,6 +806,9 @@ func replayAvc(c *runner.Ctx, w *witness) {
 		if pps, err := avc.ParsePPSNALUnit(p, spsMap); err == nil && pps != nil {
 			ppsMap[pps.PicParameterSetID] = pps
 		}
+	}
+	for _, n := range unhxAll(w.Prior) {
+		c.Guard(func() { _, _ = avc.ParseSliceHeader(n, spsMap, ppsMap) })
 	}
 	switch w.Kind {
 	case "sps":
